@@ -11,6 +11,27 @@ SYMX_NOTE = ("Trusted base: z3 5.1.0; the symx proxies' str/int semantics, its r
              "interpreter without instrumentation before it is reported. Bounded: see evidence per_obligation.bounds.")
 
 CHECKS = {
+ 'C01': dict(
+   text="Bounded symbolic execution of the complete real pipeline encoder.encode -> lexer -> strict parser -> decoder "
+        "of the same dialect (PVL, ODL, PDS3, ISIS) on modules of 15 fixed shapes (single/duplicate keys, groups, "
+        "objects, nesting, PDS3 conversion cases incl. duplicate block names, sequences, nested sequences, sets, "
+        "quantities, long sequences/strings that force line wrapping) with ONE symbolic leaf: every string of length "
+        "0-2 (quick; 0-3 thorough; 'single' shape one longer) over the dialect's alphabet, an integer |i| <= 10^3/10^6, "
+        "a finite float in positional repr form; 13 encoder configurations (indent, width incl. a SYMBOLIC width in "
+        "[30,100] running the stdlib textwrap on proxies, newline, end-name, delimiter, PDS3 options). Assertion: "
+        "encode refuses with ValueError/TypeError, or the strict load equals the spec-side normalisation of the "
+        "original (upper-cased parameter names, ODL-family white-space folding, naive->UTC, PDS3 GROUP->OBJECT rule, "
+        "set vs frozenset). Outside: longer strings, more than one symbolic leaf, depth > 2, third-party quantities; "
+        "temporal values are covered by C14.",
+   ref='5 (C01)', technique='symbolic execution (symx) of encoder+lexer+parser+decoder on a symbolic leaf; z3 decides every branch; bounded'),
+ 'C02': dict(
+   text="The C01 obligations with the reader replaced by pvl.loads(text) with no argument (OmniParser, OmniGrammar, "
+        "OmniDecoder): the whole-document dash-continuation substitution runs on the symbolic text through the regex "
+        "engine, '#' comments / NUL reserved / '+' unreserved / both sign positions / the empty-value repair hooks "
+        "are real code on the path; additionally module.errors must be []. Oracle = C01's normalisation composed "
+        "with the default loader's documented ones (folding of quoted strings, dash + line end + following white "
+        "space removed, naive -> UTC). Same bounds as C01.",
+   ref='5 (C02)', technique='symbolic execution (symx) of encoder + default loader on a symbolic leaf; z3; bounded'),
  'C10': dict(
    text="Inductive step decided by symbolic execution of the real container code: pre-state = the container built "
         "from an arbitrary list of 0-3 (quick) / 0-4 (thorough) pairs - every key equality pattern (restricted-growth "
